@@ -427,6 +427,11 @@ pub struct WriterPlan {
   pub eintr_burst: u32,
   /// return `Ok(0)` once this many bytes were accepted
   pub zero_at: Option<u64>,
+  /// the hard failure is transient: exactly one call fails, later calls are
+  /// accepted again (a quota that frees up, a socket that recovers). Whatever
+  /// a caller writes after the error then lands in the sink and is visible.
+  #[serde(default)]
+  pub transient: bool,
 }
 
 #[derive(Clone, Debug, Serialize, Deserialize, PartialEq, Eq, Hash, Default)]
